@@ -216,24 +216,37 @@ def rfcOf (fmt : List (Int × Str)) (prs : List (Str × Int)) : Rfc3339 :=
       | some p => p.2
       | none => [63]
     parse := fun t => (prs.find? (fun p => p.1 == t)).map (·.2)
-    -- the harness runs in the UTC zone: local years 0..9999
+    -- the year test in the location the writers format in; the harness pins UTC: years 0..9999
     inYears := fun v => decide (minEpoch0 ≤ v) && decide (v ≤ maxEpoch) }
 
-/-- `tag:E<n>` / `tag:M<n>` -/
+/-- a hint key: a decimal tag (the hint holds wherever an element is asked for under that tag) or `@i.j.k`
+    (the hint holds at that position: path of child indices from the root, `@` = the root). -/
+def parseKey (t : String) : Option (Option (List Nat) × Int) :=
+  if t.startsWith "@" then
+    let body := (t.drop 1).toString
+    if body = "" then some (some [], 0)
+    else do
+      let idx ← (body.splitOn ".").mapM fun x => x.toNat?
+      pure (some idx, 0)
+  else do pure (none, ← t.toInt?)
+
+/-- `key:E<n>` / `key:M<n>`; at a position a path entry is looked up first, then a tag entry. -/
 def parseHints (s : String) : Option Hints := do
   let entries ← (splitList s).mapM fun p =>
     match p.splitOn ":" with
     | [t, h] => do
-      let tag ← t.toInt?
-      if h.startsWith "E" then pure (tag, true, ← (h.drop 1).toString.toInt?)
-      else if h.startsWith "M" then pure (tag, false, ← (h.drop 1).toString.toInt?)
+      let key ← parseKey t
+      if h.startsWith "E" then pure (key, true, ← (h.drop 1).toString.toInt?)
+      else if h.startsWith "M" then pure (key, false, ← (h.drop 1).toString.toInt?)
       else none
     | _ => none
-  pure fun tag =>
-    { enumTag := match entries.find? (fun e => e.1 == tag && e.2.1) with
-        | some e => e.2.2
-        | none => 0
-      mask := (entries.find? (fun e => e.1 == tag && !e.2.1)).map (·.2.2) }
+  let find := fun (path : List Nat) (tag : Int) (isEnum : Bool) =>
+    match entries.find? (fun e => e.1.1 == some path && e.2.1 == isEnum) with
+    | some e => some e.2.2
+    | none => (entries.find? (fun e => e.1.1 == none && e.1.2 == tag && e.2.1 == isEnum)).map (·.2.2)
+  pure fun path tag =>
+    { enumTag := (find path tag true).getD 0
+      mask := find path tag false }
 
 def whole {α : Type} (r : Option (α × List String)) : Option α :=
   match r with
